@@ -56,14 +56,14 @@ package base
 //@   modifies ghost.dstep_failed
 //@   ensures ghost.dstep_failed == (old(ghost.dstep_failed) || result1 != nil)
 //@ func (*BaseUndoLogManager).getRollbackInfo
-//@   prop C08
+//@   prop C08 C01 C02 C10 C11
 //@   modifies ghost.step_failed
 //@   ensures ghost.step_failed == (old(ghost.step_failed) || result1 != nil)
 //@   ensures C08/no-compressor-named-means-raw: !haskey(undoContext, compressorTypeKey) ==> result1 == nil && result0 == rollbackInfo
 //@   ensures C08/decompressed-by-the-named-compressor: haskey(undoContext, compressorTypeKey) ==> called("Decompress#1") && result1 == callres("Decompress#1", 1) && (result1 == nil ==> result0 == callres("Decompress#1", 0))
 //@   at call Decompress#1: assert C08/compressor-from-the-context: arg_self == ufval("compressor.for", undoContext[compressorTypeKey]) && arg_arg0 == rollbackInfo
 //@ func (*BaseUndoLogManager).deserializeBranchUndoLog
-//@   prop C08
+//@   prop C08 C01 C02 C10 C11
 //@   modifies ghost.step_failed
 //@   ensures ghost.step_failed ==> old(ghost.step_failed) || result1 != nil
 //@   nopanic
@@ -79,21 +79,21 @@ package base
 //@   ensures ghost.executors_run == old(ghost.executors_run) + 1 && ghost.step_failed == (old(ghost.step_failed) || result != nil) && ghost.execs >= old(ghost.execs)
 
 //@ func (*BaseUndoLogManager).DeleteUndoLog
-//@   prop C10 C01
+//@   prop C10 C01 C02 C08 C11
 //@   requires conn != nil
 //@   modifies ghost.step_failed, ghost.execs, ghost.stmts_open, ghost.log_deletes
 //@   ensures propagates: ghost.step_failed == (old(ghost.step_failed) || result != nil)
 //@   ensures releases-stmt: ghost.stmts_open == old(ghost.stmts_open)
 
 //@ func (*BaseUndoLogManager).InsertUndoLogWithSqlConn
-//@   prop C10
+//@   prop C10 C01 C02 C08 C11
 //@   requires conn != nil
 //@   modifies ghost.step_failed, ghost.execs, ghost.stmts_open
 //@   ensures propagates: ghost.step_failed == (old(ghost.step_failed) || result != nil)
 //@   ensures releases-stmt: ghost.stmts_open == old(ghost.stmts_open)
 
 //@ func (*BaseUndoLogManager).insertUndoLogWithGlobalFinished
-//@   prop C10
+//@   prop C10 C01 C02 C08 C11
 //@   requires conn != nil
 //@   modifies ghost.step_failed, ghost.execs, ghost.stmts_open
 //@   ensures propagates: ghost.step_failed ==> old(ghost.step_failed) || result != nil
@@ -107,10 +107,10 @@ package base
 //@   trusted
 //@   ensures !contains(result, "IGNORE") && !contains(result, "DUPLICATE")
 //@ func getInsertUndoLogSql
-//@   prop C10 C02
+//@   prop C10 C02 C01 C08 C11
 //@   ensures insert-fails-on-an-existing-row: result[0:12] == "INSERT INTO " && !contains(result, "IGNORE") && !contains(result, "ON DUPLICATE KEY")
 //@ func (*BaseUndoLogManager).Undo
-//@   prop C10 C01
+//@   prop C10 C01 C02 C08 C11
 //@   local undoLogRecords []undo.UndologRecord
 //@   ensures transaction-on-the-rollback-connection: !called("(*DB).BeginTx#1") && (ghost.utx != 0 ==> called("(*Conn).BeginTx#1") && callarg("(*Conn).BeginTx#1", 0) == callres("(*DB).Conn#1", 0))
 //@   modifies ghost.all, heap.all
@@ -146,7 +146,7 @@ package base
 //@   modifies ghost.dstep_failed, ghost.dexecs
 //@   ensures ghost.dstep_failed == (old(ghost.dstep_failed) || result1 != nil) && ghost.dexecs == old(ghost.dexecs) + 1
 //@ func (*BaseUndoLogManager).serializeBranchUndoLog
-//@   prop C08
+//@   prop C08 C01 C02 C10 C11
 //@   modifies ghost.dstep_failed
 //@   ensures ghost.dstep_failed ==> old(ghost.dstep_failed) || result1 != nil
 //@   ensures C08/unknown-serializer-is-an-error: called("Load#1") && callres("Load#1", 1) != nil ==> result1 != nil && !called("Encode#1")
@@ -158,7 +158,7 @@ package base
 //@   ensures true
 
 //@ func (*BaseUndoLogManager).InsertUndoLog
-//@   prop C02 C10
+//@   prop C02 C10 C01 C08 C11
 //@   requires conn != nil
 //@   modifies ghost.dstep_failed, ghost.dexecs
 //@   ensures propagates: ghost.dstep_failed == (old(ghost.dstep_failed) || result != nil)
@@ -166,7 +166,7 @@ package base
 //@   ensures at-most-once: ghost.dexecs <= old(ghost.dexecs) + 1
 
 //@ func (*BaseUndoLogManager).FlushUndoLog
-//@   prop C02 C08 C01
+//@   prop C02 C08 C01 C10 C11
 //@   requires tranCtx != nil && tranCtx.RoundImages != nil && conn != nil && !ghost.dstep_failed
 //@   modifies ghost.dstep_failed, ghost.dexecs
 //@   ensures failure-surfaces: ghost.dstep_failed ==> result != nil
@@ -194,7 +194,7 @@ package base
 //@ ext strings.Join
 //@   ensures true
 //@ func (*BaseUndoLogManager).BatchDeleteUndoLog
-//@   prop C11
+//@   prop C11 C01 C02 C08 C10
 //@   requires conn != nil && !ghost.step_failed
 //@   modifies ghost.step_failed, ghost.execs, ghost.stmts_open
 //@   ensures deleted-means-executed: result == nil ==> ghost.execs == old(ghost.execs) + 1 && !ghost.step_failed
